@@ -22,10 +22,15 @@ PROP = dict(
         # table size read at quiescence after every burst); shared with C16
         dict(driver="mgrburst", binary="zrate", quick=30, thorough=600, shard=40,
              monitors=["table_bounded"]),
+        # the archiver's use of the limiter: real archiver.Start/worker/archive() + real HTTP against a local origin with a
+        # scripted status sequence per host, max-retry 0-2; requests observed as they arrive at the origin, bucket state
+        # (failure count, rate) read after the first item
+        dict(driver="archrl", binary="zratearch", noshrink=True, quick=14, thorough=150, shard=50,
+             monitors=["penalty_honoured_at_origin_across_items"]),
     ],
     partial="IEEE-754: the model computes over Q where the code uses binary64 (tokens/rate compared within 1e-9, a grant decision "
             "within 1e-6 of the threshold is not compared); per-host bounds hold for a bucket's lifetime only - LFU eviction and the "
-            "stale-bucket cleanup hand a host a fresh full bucket (known finding); archive() retries do not pass through Wait.",
+            "stale-bucket cleanup hand a host a fresh full bucket (known finding); archive() retries do not pass through Wait (the archrl leg checks, on the real archiver, that every item passes through Wait once, that every failure answer - also the one to the last permitted attempt - is reported, and that no request of another item reaches the origin inside the penalty; a plain 403 is not reported by archive()).",
     assumptions=["binary64 arithmetic of refill/adjustOnFailure/onSuccess is within 1e-9 of exact arithmetic (checked on every run, not proved)",
                  "clock readings taken under tb.mu are non-decreasing in lock order (monotonic clock)",
                  "capacity >= 0 and configured rate >= 0 (NaN/negative configuration not modelled)",
